@@ -1,24 +1,25 @@
 """C03 - NDEF writes touch nothing outside the NDEF message area (Type 1 / Type 2 Tag part;
 Type 3/4 are the plug-in part c03_t34).
 
-L1: theorems of NfcVerif.Props.C03: for every well-formed image and every message up to the
-    capacity, every byte outside Area = {a | off < a < areaEnd, a not reserved} keeps its
-    value in all images that reach the tag, and every write command contains a byte of Area;
-    the same for Type2Tag.format and for Topaz / Topaz-512 format on NDEF formatted tags, with
-    and without wipe.
-L2: model vs nfcpy: write commands of NDEF writes, of Type2Tag.format(wipe) and of
-    Topaz/Topaz512.format(wipe).
-L3: real code: byte-wise diff of the simulated memory before/after a write / format against
-    the area computed by the layout generator (not by nfcpy); address ranges of all commands.
+L1: theorems of NfcVerif.Props.C03 (write / format confinement for every well-formed image) and
+    NfcVerif.Props.C03Ctl (Lock/Memory Control TLV range decoding over the whole field space,
+    control TLV images read back as the specified reserved ranges, protect() and the vendor
+    format() confined to lock / configuration bytes resp. the data area).
+L2: model vs nfcpy: write commands of NDEF writes, of Type2Tag.format(wipe) (generic and every
+    tt2_nxp product class), of Topaz/Topaz512.format(version, wipe), of protect(); the pure range
+    functions get_lock_byte_range / get_rsvd_byte_range of tt1.py and tt2.py against the model.
+L3: real code: byte-wise diff of the simulated memory before/after a write / format / protect
+    against the area computed by the layout generator FROM THE SPECIFICATION (not by nfcpy, not by
+    the model); address ranges of all commands.
 """
 import logging
 import os
 
-from common import Model, hx, exc_name
+from common import Model, hx, exc_name, INTERNAL
 
 logging.disable(logging.CRITICAL)
 
-LEAN_TARGETS = ["NfcVerif.Props.C03", "drv_t12"]
+LEAN_TARGETS = ["NfcVerif.Props.C03", "NfcVerif.Props.C03Ctl", "drv_t12", "drv_c03"]
 PARTS = ["t34"] if os.path.exists(os.path.join(os.path.dirname(os.path.abspath(__file__)), "c03_t34.py")) else []
 
 THEOREMS = [
@@ -29,9 +30,50 @@ THEOREMS = [
     "NfcVerif.C03.t12_long_length_counterexample",   # documents that hypothesis Hdr3 is necessary
 ]
 
+THEOREMS_CTL = [
+    "NfcVerif.C03Ctl.ctlRange_spec",
+    "NfcVerif.C03Ctl.ctlRange_size_zero",
+    "NfcVerif.C03Ctl.ctlRange_count_bounds",
+    "NfcVerif.C03Ctl.ctl_walk_reserves",
+    "NfcVerif.C03Ctl.ctl_bytes_kept",
+    "NfcVerif.C03Ctl.t1_format_version_confined",
+    "NfcVerif.C03Ctl.nxp_format_confined",
+    "NfcVerif.C03Ctl.t2_protect_confined",
+    "NfcVerif.C03Ctl.nxp_protect_confined",
+    "NfcVerif.C03Ctl.t1_protect_confined",
+]
+
+
+FIELD_RUNS = []
+_LAP = [None, []]
+
+
+def lap(ck, name):
+    """wall time per section, reported in the evidence notes only (nothing depends on it)"""
+    import time
+    now = time.time()
+    if _LAP[0] is not None:
+        _LAP[1].append("%s %.1fs" % (_LAP[0][0], now - _LAP[0][1]))
+    _LAP[0] = (name, now) if name else None
+    if not name:
+        ck.notes.append("section wall times: " + ", ".join(_LAP[1]))
+        del _LAP[1][:]
+
 
 def in_area(lay, a):
     return lay["off"] <= a < lay["end"] and a not in lay["skip"]
+
+
+def where_of(lay, a):
+    if a in lay["skip"] and a < lay["end"]:
+        for t, d0, d1, d2, f, c, w in lay.get("ctl", []):
+            if f <= a < f + c:
+                return "%s byte declared by the %s control TLV %02x %02x %02x" % (
+                    "lock" if t == 1 else "reserved", "lock" if t == 1 else "memory", d0, d1, d2)
+        return "reserved by a control TLV"
+    if a >= lay["end"]:
+        return "behind the data area"
+    return "in front of the NDEF TLV length field"
 
 
 def judge(ck, lay, kind, base, final, cmds, what, replay, prefix):
@@ -39,10 +81,8 @@ def judge(ck, lay, kind, base, final, cmds, what, replay, prefix):
     bad = [a for a in range(len(base)) if base[a] != final[a] and not (in_area(lay, a) and a != lay["off"])]
     if bad:
         a = bad[0]
-        where = ("reserved by a control TLV" if a in lay["skip"] and a < lay["end"] else
-                 "behind the data area" if a >= lay["end"] else "in front of the NDEF TLV length field")
         ck.fail(prefix + "-outside-area", "%s %s: byte %d (%s) changed %02x -> %02x (NDEF TLV at %d, area end %d)"
-                % (kind, what, a, where, base[a], final[a], lay["off"], lay["end"]), replay)
+                % (kind, what, a, where_of(lay, a), base[a], final[a], lay["off"], lay["end"]), replay)
     for a, d in cmds:
         if not any(in_area(lay, x) for x in range(a, a + len(d))):
             ck.fail(prefix + "-command-outside-area", "%s %s: write command for bytes %d..%d lies wholly outside the "
@@ -51,89 +91,433 @@ def judge(ck, lay, kind, base, final, cmds, what, replay, prefix):
     return not bad
 
 
-def run(ck):
-    from sims.t12_run import Run, layout_with_old, read_line, show_cmds
-    from sims.t12_tags import make_sim, clone, activate, T1Sim, f1_present
-    rng = ck.rng
-    ck.rule = ("case = (operation write|format|format+wipe, tag kind, memory image, message/wipe byte); layouts as in "
-               "C01 with emphasis on reserved ranges right after the length field, at the last bytes of the data area "
-               "and behind it; non-trivial = the operation issued at least one write command; distinct by hash")
-    ck.assumptions += [
-        "the tag is plain memory ('keep their values' is judged on stored bytes; real lock bits are one-way)",
-        "well-formed layouts as in C01 (NfcVerif.Tlv.WF); format() is judged only on tags that already carry NDEF "
-        "management data (erase semantics), Topaz format only on factory-formatted Topaz/Topaz-512 layouts",
-        "the model equals the Python functions outside the compared inputs (the tie is a sample)",
-    ]
-    ck.trusted += ["hand-written Lean model NfcVerif.Model.Tlv tied to tt1.py/tt2.py by differential runs",
-                   "harness/sims/t12_tags.py, harness/sims/t12_run.py, harness/props/c03.py"]
-    ck.lean("NfcVerif.Props.C03", THEOREMS)
-    if ck.thorough:
-        ck.leanchecker(["NfcVerif.Props.C03"])
-    model = Model("drv_t12")
+class Tie(object):
+    """collects (request, implementation line, replay) triples for one driver and compares in one batch"""
 
-    # ------------------------------------------------------------------ NDEF writes
-    nlay = 12000 if ck.thorough else 400
+    def __init__(self, ck, model, key, title):
+        self.ck, self.model, self.key, self.title, self.jobs = ck, model, key, title, []
+
+    def add(self, req, line, replay):
+        self.jobs.append((req, line, replay))
+
+    def close(self, exhaustive=False):
+        replies = self.model.ask_many([j[0] for j in self.jobs])
+        dis = 0
+        for (req, line, replay), rep in zip(self.jobs, replies):
+            if rep != line:
+                dis += 1
+                self.ck.fail("tie:" + self.key, "model %r, implementation %r" % (rep[:300], line[:300]),
+                             dict(replay, request=req[:4000], model=rep[:4000], impl=line[:4000]))
+        self.ck.tie(self.title, cases=len(self.jobs), disagreements=dis, exhaustive=exhaustive)
+        return dis
+
+
+def write_case(ck, lay, n_of_cap, tie, bucket, f1, sample=False):
+    """one NDEF write by the real code on `lay`: oracle + tie job.  `n_of_cap(cap)` chooses the length from the
+    capacity REPORTED by the code (the longest accepted message must stay inside, too)."""
+    from sims.t12_run import Run, read_line
+    from sims.t12_tags import make_sim
+    kind = lay["kind"]
+    rng = ck.rng
+    base0 = bytes(lay["mem"])
+    rp0 = {"op": "write", "kind": kind, "memory": base0.hex(), "layout": lay.get("descr", "")}
+    try:
+        _, _, nd0 = read_line(kind, make_sim(lay))
+        cap = nd0.capacity if nd0 is not None else lay["free"] - (4 if lay["free"] > 256 else 2)
+        n = max(1 if f1 else 0, n_of_cap(cap))
+        data = bytes(rng.randrange(256) for _ in range(n))
+        r = Run(lay, data)
+    except Exception as e:  # noqa - the code under test answered with something the harness does not expect
+        ck.fail("t12-unexpected-exception", "%s: reading / writing a well-formed tag raised %s: %s" % (kind, exc_name(e), e), rp0)
+        return None
+    tie.add(r.request(), r.line, r.replay())
+    edge = n >= 255 and not lay["hdr3"]
+    if edge:
+        # outside the quantifier: the new message needs the 3-byte length field FF hi lo and byte off+2 or
+        # off+3 is reserved, i.e. a reserved range on the NDEF TLV's length-field bytes.  No confinement claim
+        # here (theorem hypothesis Hdr3); the case still takes part in the model-vs-code comparison.
+        ck.case(("write-excluded", kind, r.base, data), False, "write:%s:length-field-on-reserved(excluded)" % kind)
+        return r
+    if r.nd is None:
+        ck.fail("t12-wellformed-layout-not-read", "%s: %s (%s)" % (kind, r.before, lay.get("descr", "")), r.replay())
+        return r
+    ck.case(("write", kind, r.base, data), len(r.cmds) > 0,
+            "%s:%s:%s" % (bucket, kind, "rejected" if r.wrote != "ok" else "ok"),
+            sample={"op": "write", "kind": kind, "off": r.off, "len": n, "commands": len(r.cmds),
+                    "layout": lay.get("descr", "")} if sample else None)
+    if r.off != lay["off"]:
+        ck.fail("t12-ndef-tlv-position", "%s: NDEF TLV found at %d, the layout has it at %d (%s)"
+                % (kind, r.off, lay["off"], lay.get("descr", "")), r.replay())
+    if r.wrote not in ("ok", "exc ValueError") or (r.wrote == "exc ValueError" and n <= cap):
+        ck.fail("t12-write-fails", "%s: write of %d bytes (capacity %d) ended with %s" % (kind, n, cap, r.wrote), r.replay())
+    judge(ck, lay, kind, r.base, r.final, r.cmds, "write of %d bytes (%s)" % (n, lay.get("descr", "")), r.replay(), "t12-write")
+    return r
+
+
+def format_case(ck, lay, wipe, tie, bucket, sim_of=None, sample=False, klass=None):
+    """Type2Tag.format(wipe=...) by the real code on `lay` (sim_of: vendor simulator factory)"""
+    from sims.t12_run import read_line, show_cmds
+    from sims.t12_tags import make_sim, activate, T2Sim
+    base = bytes(lay["mem"])
+    what = "format(wipe=%r)" % (wipe,)
+    replay = {"op": "format", "kind": "t2", "memory": base.hex(), "wipe": wipe, "layout": lay.get("descr", ""),
+              "class": klass or "Type2Tag", "request": "f %s %d" % (hx(base), -1 if wipe is None else wipe)}
+    try:
+        sim = make_sim(lay, base) if sim_of is None else sim_of(base)
+        tag = activate(sim)
+        if klass is not None and type(tag).__name__ != klass:
+            ck.fail("t2-vendor-class-not-selected", "activation gave %s, expected %s" % (type(tag).__name__, klass), replay)
+            return
+        sim.arm(None)
+        try:
+            res = tag.format(wipe=wipe)
+            out = "true" if res is True else "false" if res is False else "none"
+        except Exception as e:  # noqa
+            out = "exc " + exc_name(e)
+        final = bytes(sim.mem)
+        cmds = list(sim.writes)
+        after, _, nd = read_line("t2", T2Sim(final, sim.sdd))
+        after_oct = None if nd is None else bytes(nd.octets)
+    except Exception as e:  # noqa
+        ck.fail("t2-format-unexpected-exception", "t2 %s raised %s: %s" % (what, exc_name(e), e), replay)
+        return
+    line = out if out != "true" else "true | %s | %s" % (show_cmds(cmds), after)
+    tie.add(replay["request"], line, replay)
+    ck.case(("format", klass, base, wipe), len(cmds) > 0, "%s:%s" % (bucket, "wipe" if wipe is not None else "plain"),
+            sample={"op": "format", "class": klass or "Type2Tag", "wipe": wipe, "off": lay["off"], "commands": len(cmds),
+                    "layout": lay.get("descr", "")} if sample else None)
+    if out != "true":
+        ck.fail("t2-format-fails", "t2 %s on an NDEF formatted writeable tag returned %s" % (what, out), replay)
+        return
+    bad = [a for a in range(len(base)) if base[a] != final[a] and not (in_area(lay, a) and a != lay["off"])]
+    if bad:
+        a = bad[0]
+        key = "t2-format-terminator-outside-area" if final[a] == 0xFE and a == lay["off"] + 2 else "t2-format-outside-area"
+        ck.fail(key, "t2 %s: byte %d (%s) changed %02x -> %02x (NDEF TLV at %d, area end %d; %s)"
+                % (what, a, where_of(lay, a), base[a], final[a], lay["off"], lay["end"], lay.get("descr", "")), replay)
+    for a, d in cmds:
+        if not any(in_area(lay, x) for x in range(a, a + len(d))):
+            ck.fail("t2-format-command-outside-area", "t2 %s: command for bytes %d..%d wholly outside" % (what, a, a + 3), replay)
+            break
+    if after_oct != b"":
+        ck.fail("t2-format-not-empty", "t2 %s: fresh reader sees %s" % (what, after[:80]), replay)
+    if wipe is not None and not bad:
+        t = lay["off"] + 2
+        while t in lay["skip"]:
+            t += 1
+        left = [a for a in range(t + 1, lay["end"]) if a not in lay["skip"] and final[a] != wipe & 0xFF]
+        if left:
+            ck.fail("t2-format-wipe-incomplete", "t2 %s: byte %d not wiped" % (what, left[0]), replay)
+
+
+def run(ck):
+    from sims.t12_run import layout_with_old, BOUNDARY_FREE
+    from sims.t12_tags import f1_present
+    from sims import c03_layouts as G
+    rng = ck.rng
+    ck.rule = ("case = (operation write|format|format+wipe|protect, tag kind / product class, memory image, message / "
+               "wipe byte / password); layouts: (a) as in C01 with emphasis on reserved ranges right after the length "
+               "field, at the last bytes of the data area and behind it, (b) the whole Lock/Memory Control TLV field "
+               "space (sims/c03_layouts: size field 00h = 256 and every boundary bit/byte count, every page size "
+               "exponent and byte offset that can address the position, ranges before / right behind the length byte / "
+               "inside / straddling the end / ending at the end / directly behind / beyond the data area, 1-4 TLVs with "
+               "overlapping ranges, raw random field values, proprietary TLVs in front; Type 2 data areas 48..2040 "
+               "bytes incl. the sector boundary at 1024, Type 1 dynamic 128..2048 bytes), (c) a deterministic sweep "
+               "type x size field x position x exponent with one TLV, message = capacity, (d) every tt2_nxp product "
+               "class on its own memory map; non-trivial = the operation issued at least one write command; distinct by hash")
+    ck.assumptions += [
+        "the tag is plain memory ('keep their values' is judged on stored bytes; real lock bits are one-way); NXP "
+        "products: BCC1/INTERNAL (first two bytes of page 2) are read-only in hardware",
+        "well-formed layouts as in C01 (NfcVerif.Tlv.WF); format() is judged only on tags that already carry NDEF "
+        "management data (erase semantics), Topaz format only on factory-formatted Topaz/Topaz-512 layouts; the "
+        "vendor format() that first restores factory TLVs is judged on tags with a valid capability container",
+        "reserved ranges of a layout = what the NFC Forum T1T/T2T specification says its control TLVs declare "
+        "(sims/c03_layouts.spec_range), computed without nfcpy and without the model",
+        "the model equals the Python functions outside the compared inputs (the tie is a sample, exhaustive only "
+        "where stated)",
+    ]
+    ck.trusted += ["hand-written Lean models NfcVerif.Model.Tlv, Model.T1Format, Model.CtlC03 tied to tt1.py/tt2.py/"
+                   "tt1_broadcom.py/tt2_nxp.py by differential runs",
+                   "harness/sims/t12_tags.py, t12_run.py, c03_layouts.py, c03_vendor.py, harness/props/c03.py"]
+    lap(ck, "lean")
+    ck.lean("NfcVerif.Props.C03", THEOREMS)
+    ck.lean("NfcVerif.Props.C03Ctl", THEOREMS_CTL)
+    if ck.thorough:
+        ck.leanchecker(["NfcVerif.Props.C03", "NfcVerif.Props.C03Ctl"])
+    lap(ck, "drivers")
+    model = Model("drv_t12")
+    model3 = Model("drv_c03")
     f1 = f1_present()
     if f1:
         ck.notes.append("this tree still has defect F1 (empty message -> UnboundLocalError, reported by C01): "
                         "empty messages are left out of this run")
-    runs = []
-    from sims.t12_run import BOUNDARY_FREE
+
+    lap(ck, "write-c01-layouts")
+    wt = Tie(ck, model, "t12-write-model-vs-nfcpy", "Tlv model vs tt1/tt2 NDEF write: ordered write commands and resulting memory")
+    nlay = 12000 if ck.thorough else 400
     targets = [(k, t) for t in BOUNDARY_FREE for k in ("t2", "t1d") if not (k == "t1d" and t < 10)]
     targets = targets * (8 if ck.thorough else 2)
     for i in range(nlay + len(targets)):
-        if i >= nlay:
-            # exactly 2..5 / 253..261 free bytes behind the NDEF TLV: both sides of every capacity threshold
-            kind, tf = targets[i - nlay]
-            lay = layout_with_old(rng, kind, False, [0, 5, 254, lambda f: f - 4], target_free=tf)
-            ck.count("boundary layouts (free bytes 2..5, 253..261)")
-        else:
-            kind = ("t2", "t2", "t1d", "t1s")[i % 4]
-            lay = layout_with_old(rng, kind, ck.thorough and rng.random() < 0.1, [0, 5, 200, 255, 300, lambda f: f - 4])
-        # the capacity REPORTED by the code decides what the longest accepted message is: that one must stay inside
-        _, _, nd0 = read_line(kind, make_sim(lay))
-        cap = nd0.capacity if nd0 is not None else lay["free"] - (4 if lay["free"] > 256 else 2)
-        if i >= nlay:
-            n = rng.choice([cap, cap, cap - 1])
-        else:
-            n = rng.choice([0, 1, 2, 3, 254, 255, cap - 1, cap, cap, cap + 1, rng.randrange(0, max(1, cap + 1))])
-        n = max(1 if f1 else 0, n)
-        edge = n >= 255 and not lay["hdr3"]
-        data = bytes(rng.randrange(256) for _ in range(n))
-        r = Run(lay, data)
-        runs.append(r)
-        if edge:
-            # outside the quantifier: the new message needs the 3-byte length field FF hi lo and byte off+2 or
-            # off+3 is reserved, i.e. a reserved range on the NDEF TLV's length-field bytes.  No confinement claim
-            # here (theorem hypothesis Hdr3); the case still takes part in the model-vs-code comparison.
-            ck.case(("write-excluded", kind, r.base, data), False, "write:%s:length-field-on-reserved(excluded)" % kind)
+        try:
+            if i >= nlay:
+                # exactly 2..5 / 253..261 free bytes behind the NDEF TLV: both sides of every capacity threshold
+                kind, tf = targets[i - nlay]
+                lay = layout_with_old(rng, kind, False, [0, 5, 254, lambda f: f - 4], target_free=tf)
+                ck.count("boundary layouts (free bytes 2..5, 253..261)")
+                pick = lambda cap: rng.choice([cap, cap, cap - 1])  # noqa
+            else:
+                kind = ("t2", "t2", "t1d", "t1s")[i % 4]
+                lay = layout_with_old(rng, kind, ck.thorough and rng.random() < 0.1, [0, 5, 200, 255, 300, lambda f: f - 4])
+                pick = lambda cap: rng.choice([0, 1, 2, 3, 254, 255, cap - 1, cap, cap, cap + 1, rng.randrange(0, max(1, cap + 1))])  # noqa
+        except Exception as e:  # noqa - layout_with_old runs nfcpy-free code only; keep going anyway
+            ck.notes.append("layout generator: %s" % e)
             continue
-        if r.nd is None:
-            ck.fail("t12-wellformed-layout-not-read", "%s: %s" % (kind, r.before), r.replay())
-            continue
-        ck.case(("write", kind, r.base, data), len(r.cmds) > 0,
-                "write:%s:%s" % (kind, "rejected" if r.wrote != "ok" else "ok"),
-                sample={"op": "write", "kind": kind, "off": r.off, "len": n, "commands": len(r.cmds)} if i < 3 else None)
-        judge(ck, lay, kind, r.base, r.final, r.cmds, "write of %d bytes" % n, r.replay(), "t12-write")
-    replies = model.ask_many([r.request() for r in runs])
-    dis = 0
-    for r, rep in zip(runs, replies):
-        if rep != r.line:
-            dis += 1
-            ck.fail("tie:t12-write-model-vs-nfcpy", "model %r, implementation %r" % (rep[:300], r.line[:300]),
-                    dict(r.replay(), model=rep, impl=r.line))
-    ck.tie("Tlv model vs tt1/tt2 NDEF write: ordered write commands and resulting memory", cases=len(runs), disagreements=dis)
+        write_case(ck, lay, pick, wt, "write", f1, sample=i < 3)
 
-    # ------------------------------------------------------------------ Type 2 format
+    lap(ck, "write-fieldspace")
+    nfield = 4800 if ck.thorough else 420
+    kinds = ["t2", "t2", "t2", "t1d", "t1d", "t1s"]
+    for i in range(nfield):
+        kind = kinds[i % len(kinds)]
+        lay = G.gen_field_layout(rng, kind)
+        lay = G.with_old(rng, lay, [0, 5, 40, 254, 255, 300, lambda f: f - 4, lambda f: f - 2])
+        if lay is None:
+            continue
+        lay["descr"] = G.describe(lay)
+        for t, d0, d1, d2, f, c, w in lay["ctl"]:
+            ck.count("control TLV: %s, %s, size field %s" % ("lock" if t == 1 else "memory", w,
+                                                               "00h" if d1 == 0 else "other"))
+        ck.count("data area: %s" % ("<= 256" if lay["end"] <= 272 else "<= 1024" if lay["end"] <= 1024 else "> 1024 (sector 1+)"))
+        FIELD_RUNS.append(write_case(ck, lay, lambda cap: rng.choice([cap, cap, cap, cap - 1, cap + 1, 254, 255, 256, rng.randrange(0, max(1, cap + 1))]),
+                                     wt, "write-fieldspace", f1, sample=i < 2))
+
+    lap(ck, "write-sweep+tie")
+    sweeps = [("t2", 62), ("t2", 129), ("t1d", 64)] if not ck.thorough else [("t2", 40), ("t2", 62), ("t2", 129), ("t2", 255), ("t1d", 64), ("t1d", 256)]
+    sweep_lays = []
+    for kind, size in sweeps:
+        for lay in G.sweep(kind, size, rng, ck.thorough, 3, (ck.seed + size) % 3):
+            lay = G.with_old(rng, lay, [0, 7, lambda f: f - 4])
+            if lay is None:
+                continue
+            lay["descr"] = G.describe(lay)
+            sweep_lays.append(lay)
+            ck.count("sweep layouts")
+            FIELD_RUNS.append(write_case(ck, lay, lambda cap: cap, wt, "write-sweep", f1))
+    wt.close()
+    # how many of the judged field-space cases satisfy the hypotheses of the theorems (measured, by the drivers):
+    # WF + Hdr3 (t12_write_confined) and the chain hypotheses of ctl_walk_reserves / ctl_bytes_kept
+    hyp = [(r.kind, r.base, len(r.data)) for r in FIELD_RUNS if r is not None and r.nd is not None]
+    wf = model.ask_many(["wf %s %s %d" % (k, hx(b), n) for k, b, n in hyp])
+    ch = model3.ask_many(["hyp %s %s" % (k, hx(b)) for k, b, n in hyp])
+    ck.dist["field-space cases inside the hypotheses WF+Hdr3 of t12_write_confined"] = "%d of %d" % (wf.count("1"), len(hyp))
+    ck.dist["field-space cases inside the chain hypotheses of ctl_bytes_kept"] = "%d of %d" % (ch.count("1"), len(hyp))
+    for (k, b, n), w, c in zip(hyp, wf, ch):
+        if c == "1" and w == "0" and n < 255:
+            # chain_wf proves WF from the chain hypotheses: the two driver answers must agree
+            ck.fail("tie:chain-implies-wf", "driver says chainOk but not WF", {"kind": k, "memory": b.hex(), "len": n})
+    del FIELD_RUNS[:]
+
+    lap(ck, "format-t2")
+    ft = Tie(ck, model, "t2-format-model-vs-nfcpy", "Tlv model vs Type2Tag.format (commands, resulting memory)")
+    wipes = lambda: rng.choice([None, None, 0, 0xFF, rng.randrange(256), 256 + rng.randrange(256)])  # noqa
     nfmt = 12000 if ck.thorough else 400
-    reqs = []
     for i in range(nfmt):
         lay = layout_with_old(rng, "t2", False, [0, 5, 40, 255, lambda f: f - 4, lambda f: f - 2])
         if i % 5 == 0:
             lay["sdd"] = b"\x04\x02\x03\x04\x05\x06\x07"     # NXP: activates as MifareUltralight (tt2_nxp)
-        wipe = rng.choice([None, None, 0, 0xFF, rng.randrange(256), 256 + rng.randrange(256)])
-        base = bytes(lay["mem"])
-        sim = make_sim(lay, base)
+        format_case(ck, lay, wipes(), ft, "format:t2", sample=i < 2)
+    for i in range(3000 if ck.thorough else 300):
+        lay = G.gen_field_layout(rng, "t2")
+        lay = G.with_old(rng, lay, [0, 5, 40, 255, lambda f: f - 4, lambda f: f - 2])
+        if lay is None:
+            continue
+        lay["descr"] = G.describe(lay)
+        format_case(ck, lay, wipes(), ft, "format-fieldspace:t2", sample=i < 1)
+    for lay in sweep_lays:
+        if lay["kind"] == "t2":
+            format_case(ck, dict(lay, mem=bytearray(lay["mem"])), rng.choice([0, 0xFF, 0x5A]), ft, "format-sweep:t2")
+
+    lap(ck, "vendor")
+    vendor(ck, model, model3, wt2=Tie(ck, model, "t12-write-model-vs-nfcpy", "Tlv model vs tt2_nxp product classes NDEF write"),
+           ft=ft, f1=f1)
+    ft.close()
+
+    lap(ck, "topaz")
+    topaz(ck, model, model3)
+
+    lap(ck, "ctl-functions")
+    ctl_functions(ck, model3)
+
+    lap(ck, "protect")
+    protect(ck, model3)
+    lap(ck, None)
+
+
+# ====================================================================== vendor classes
+def vendor_layout(rng, G, product, mode):
+    """field-space layout inside the memory map of `product` (data area = the product's factory CC size);
+    the dynamic lock bytes / configuration pages behind the data area hold random values"""
+    from sims.c03_vendor import PRODUCTS, nxp_image
+    p = PRODUCTS[product]
+    if mode == "factory":
+        mem = nxp_image(rng, product)
+        end = 16 + 8 * p["cc"]
+        skip = set()
+        o = 16
+        ctl = []
+        if mem[16] == 1:
+            f, c = G.spec_range(1, mem[18], mem[19], mem[20])
+            skip |= set(range(f, f + c))
+            ctl.append((1, mem[18], mem[19], mem[20], f, c, "factory"))
+            o = 21
+        lay = dict(kind="t2", mem=mem, off=o, skip=skip, end=end, ok=True, hdr3=o + 4 <= end, nctl=len(ctl), ctl=ctl,
+                   free=len([a for a in range(o, end) if a not in skip]))
+        return lay
+    for _ in range(40):
+        lay = G.gen_field_layout(rng, "t2", size=p["cc"])
+        mem = bytearray(rng.randrange(256) for _ in range(4 * p["pages"]))
+        n = min(len(mem), len(lay["mem"]))
+        mem[0:n] = lay["mem"][0:n]
+        mem[0:10] = bytes([0x04, 0x51, 0x7C, 0xA1, 0xE1, 0xED, 0x25, 0x80, 0xA9, 0x48])
+        if lay["end"] > len(mem):
+            continue
+        lay["mem"] = mem
+        return lay
+    return None
+
+
+def vendor(ck, model, model3, wt2, ft, f1):
+    from sims import c03_layouts as G
+    from sims.c03_vendor import PRODUCTS, NxpSim, NXP_SDD
+    rng = ck.rng
+    reps = 40 if ck.thorough else 5
+    vt = Tie(ck, model3, "nxp-format-model-vs-nfcpy", "CtlC03 model vs tt2_nxp _format on tags without NDEF TLV (factory pages, commands, memory)")
+    for product in sorted(PRODUCTS):
+        p = PRODUCTS[product]
+        for i in range(reps):
+            lay = vendor_layout(rng, G, product, "factory" if i % 3 == 0 else "field")
+            if lay is None:
+                continue
+            lay = G.with_old(rng, lay, [0, 5, 40, 255, lambda f: f - 4, lambda f: f - 2])
+            if lay is None:
+                continue
+            lay["sdd"] = NXP_SDD
+            lay["descr"] = product + ": " + G.describe(lay)
+            ck.count("vendor class %s" % p["cls"])
+            sim_of = (lambda prod: lambda base: NxpSim(prod, base))(product)
+            # NDEF write through the product class
+            vendor_write(ck, lay, sim_of, p["cls"], wt2, f1)
+            if i == 0:
+                vendor_signature(ck, lay, sim_of, p["cls"])
+            # format (erase) through the product class
+            format_case(ck, dict(lay, mem=bytearray(lay["mem"])), rng.choice([None, 0, 0xFF, rng.randrange(256)]), ft,
+                        "format-vendor:%s" % p["cls"], sim_of=sim_of, klass=p["cls"], sample=(i == 0 and product == "NTAG213"))
+        # format on a tag with capability container but WITHOUT a readable NDEF TLV: the NTAG classes first write
+        # their factory TLVs to pages 4 and 5
+        for j in range(reps):
+            vendor_blank_format(ck, product, j, vt)
+    wt2.close()
+    vt.close()
+
+
+def vendor_signature(ck, lay, sim_of, klass):
+    """NTAG21x.signature (READ_SIG) is a read: no state-changing command, no byte changes"""
+    from sims.t12_tags import activate
+    base = bytes(lay["mem"])
+    replay = {"op": "signature", "class": klass, "memory": base.hex()}
+    try:
+        sim = sim_of(base)
+        tag = activate(sim)
+        if not hasattr(type(tag), "signature"):
+            return
+        sim.arm(None)
+        sig = tag.signature
+        if sim.writes or bytes(sim.mem) != base:
+            ck.fail("t2-signature-writes", "%s.signature sent %d write commands" % (klass, len(sim.writes)), replay)
+        if len(sig) != 32:
+            ck.fail("t2-signature-length", "%s.signature returned %d bytes" % (klass, len(sig)), replay)
+        ck.case(("signature", klass, base), False, "signature:%s" % klass)
+    except Exception as e:  # noqa
+        ck.fail("t12-unexpected-exception", "%s.signature raised %s: %s" % (klass, exc_name(e), e), replay)
+
+
+def vendor_write(ck, lay, sim_of, klass, tie, f1):
+    from sims.t12_run import read_line, show_cmds
+    from sims.t12_tags import activate, T2Sim
+    rng = ck.rng
+    base = bytes(lay["mem"])
+    replay = {"op": "write", "kind": "t2", "class": klass, "memory": base.hex(), "layout": lay["descr"]}
+    try:
+        sim = sim_of(base)
+        tag = activate(sim)
+        if type(tag).__name__ != klass:
+            ck.fail("t2-vendor-class-not-selected", "activation gave %s, expected %s" % (type(tag).__name__, klass), replay)
+            return
+        before, _, nd = read_line("t2", T2Sim(base, sim.sdd))
+        nd = tag.ndef
+        if nd is None:
+            ck.fail("t12-wellformed-layout-not-read", "%s: %s" % (klass, lay["descr"]), replay)
+            return
+        cap = nd.capacity
+        n = max(1 if f1 else 0, rng.choice([cap, cap, cap - 1, 255, 254, rng.randrange(0, max(1, cap + 1))]))
+        n = max(0, min(n, cap)) if n > cap + 1 else max(0, n)
+        data = bytes(rng.randrange(256) for _ in range(n))
+        replay["data"] = data.hex()
+        replay["request"] = "w t2 %s %s 0" % (hx(base), hx(data))
+        sim.arm(None)
+        try:
+            nd.octets = data
+            wrote = "ok"
+        except Exception as e:  # noqa
+            wrote = "exc " + exc_name(e)
+        cmds = list(sim.writes)
+        final = bytes(sim.mem)
+        after, _, _ = read_line("t2", T2Sim(final, sim.sdd))
+    except Exception as e:  # noqa
+        ck.fail("t12-unexpected-exception", "%s: reading / writing raised %s: %s" % (klass, exc_name(e), e), replay)
+        return
+    tie.add(replay["request"], "%s | %s | %s | %s" % (before, wrote, show_cmds(cmds), after), replay)
+    if n >= 255 and not lay["hdr3"]:
+        ck.case(("write-excluded", klass, base, data), False, "write-vendor:length-field-on-reserved(excluded)")
+        return
+    ck.case(("write", klass, base, data), len(cmds) > 0, "write-vendor:%s" % klass)
+    if wrote not in ("ok", "exc ValueError") or (wrote == "exc ValueError" and n <= cap):
+        ck.fail("t12-write-fails", "%s: write of %d bytes (capacity %d) ended with %s" % (klass, n, cap, wrote), replay)
+    judge(ck, lay, klass, base, final, cmds, "write of %d bytes (%s)" % (n, lay["descr"]), replay, "t12-write")
+
+
+def vendor_blank_format(ck, product, j, tie):
+    """format() on a tag of `product` whose data area does not start with a readable NDEF TLV structure"""
+    from sims.c03_vendor import PRODUCTS, NxpSim, nxp_image
+    from sims.t12_run import read_line, show_cmds
+    from sims.t12_tags import activate, T2Sim
+    from sims import c03_layouts as G
+    rng = ck.rng
+    p = PRODUCTS[product]
+    mem = nxp_image(rng, product, ndef=False)
+    end = 16 + 8 * p["cc"]
+    variant = ("terminator", "zeros", "proprietary", "no-cc", "readonly", "garbage-tlv")[j % 6]
+    if variant == "terminator":
+        mem[16] = 0xFE
+    elif variant == "zeros":
+        mem[16:end] = bytes(end - 16)
+    elif variant == "proprietary":
+        mem[16:20] = bytes([0xFD, 1, 0x55, 0xFE])
+    elif variant == "no-cc":
+        mem[12] = rng.choice([0x00, 0xE0, 0xFF])
+    elif variant == "readonly":
+        mem[16:19] = bytes([3, 0, 0xFE])
+        mem[15] = 0x0F
+    else:
+        mem[16:18] = bytes([0x44, 0xFF])      # unknown TLV whose 3-byte length runs out of the memory
+        mem[18:20] = bytes([0xFF, 0xF0])
+    wipe = rng.choice([None, None, 0, 0xA5])
+    base = bytes(mem)
+    what = "%s.format(wipe=%r) on a tag with %s" % (p["cls"], wipe, variant)
+    replay = {"op": "format", "class": p["cls"], "product": product, "memory": base.hex(), "wipe": wipe, "variant": variant,
+              "request": "nf %s %s %d" % (hx(p["factory"] or b""), hx(base), -1 if wipe is None else wipe)}
+    try:
+        sim = NxpSim(product, base)
         tag = activate(sim)
         sim.arm(None)
         try:
@@ -143,49 +527,52 @@ def run(ck):
             out = "exc " + exc_name(e)
         final = bytes(sim.mem)
         cmds = list(sim.writes)
-        after, _, nd = read_line("t2", clone(sim))
-        line = out if out != "true" else "true | %s | %s" % (show_cmds(cmds), after)
-        replay = {"op": "format", "kind": "t2", "memory": base.hex(), "wipe": wipe,
-                  "request": "f %s %d" % (hx(base), -1 if wipe is None else wipe)}
-        reqs.append((replay["request"], line, replay))
-        ck.case(("format", base, wipe), len(cmds) > 0, "format:t2:%s" % ("wipe" if wipe is not None else "plain"),
-                sample={"op": "format", "wipe": wipe, "off": lay["off"], "commands": len(cmds)} if i < 2 else None)
-        what = "format(wipe=%r)" % (wipe,)
-        if out != "true":
-            ck.fail("t2-format-fails", "t2 %s on an NDEF formatted writeable tag returned %s" % (what, out), replay)
-            continue
-        bad = [a for a in range(len(base)) if base[a] != final[a] and not (in_area(lay, a) and a != lay["off"])]
-        if bad:
-            a = bad[0]
-            key = "t2-format-terminator-outside-area" if final[a] == 0xFE and a == lay["off"] + 2 else "t2-format-outside-area"
-            ck.fail(key, "t2 %s: byte %d (%s) changed %02x -> %02x (NDEF TLV at %d, area end %d)"
-                    % (what, a, "reserved" if a in lay["skip"] else "outside the data area", base[a], final[a],
-                       lay["off"], lay["end"]), replay)
-        for a, d in cmds:
-            if not any(in_area(lay, x) for x in range(a, a + len(d))):
-                ck.fail("t2-format-command-outside-area", "t2 %s: command for bytes %d..%d wholly outside" % (what, a, a + 3), replay)
-                break
-        if nd is None or bytes(nd.octets) != b"":
-            ck.fail("t2-format-not-empty", "t2 %s: fresh reader sees %s" % (what, after[:80]), replay)
-        if wipe is not None and not bad:
-            t = lay["off"] + 2
-            while t in lay["skip"]:
-                t += 1
-            left = [a for a in range(t + 1, lay["end"]) if a not in lay["skip"] and final[a] != wipe & 0xFF]
-            if left:
-                ck.fail("t2-format-wipe-incomplete", "t2 %s: byte %d not wiped" % (what, left[0]), replay)
-    replies = model.ask_many([q[0] for q in reqs])
-    dis = 0
-    for (req, line, replay), rep in zip(reqs, replies):
-        if rep != line:
-            dis += 1
-            ck.fail("tie:t2-format-model-vs-nfcpy", "model %r, implementation %r" % (rep[:300], line[:300]),
-                    dict(replay, model=rep, impl=line))
-    ck.tie("Tlv model vs Type2Tag.format (commands, resulting memory)", cases=len(reqs), disagreements=dis)
+        after, _, nd = read_line("t2", T2Sim(final, sim.sdd))
+    except Exception as e:  # noqa
+        ck.fail("t2-format-unexpected-exception", "%s raised %s: %s" % (what, exc_name(e), e), replay)
+        return
+    tie.add(replay["request"], "%s | %s | %s" % (out, show_cmds(cmds), after), replay)
+    ck.case(("format-blank", product, base, wipe), len(cmds) > 0, "format-vendor-no-ndef:%s:%s" % (variant, out.split()[0]))
+    if out.startswith("exc"):
+        ck.fail("t2-format-unexpected-exception", "%s ended with %s" % (what, out), replay)
+        return
+    changed = [a for a in range(len(base)) if base[a] != final[a]]
+    if variant == "readonly":
+        if changed:
+            ck.fail("t2-format-writes-readonly-tag", "%s: bytes %s changed although the tag is read-only" % (what, changed[:6]), replay)
+        return
+    if variant == "no-cc":
+        # no capability container: there is no declared data area; the property makes no claim (the vendor classes
+        # nevertheless write their factory TLVs to pages 4..5 and then give up) - recorded, not judged
+        ck.count("vendor format without capability container: %d bytes changed, returned %s" % (len(changed), out))
+        return
+    # allowed: the data area, minus the lock bytes that the (restored) factory lock control TLV declares
+    skip = set()
+    f = p["factory"]
+    if f is not None and f[0] == 1:
+        a, c = G.spec_range(1, f[2], f[3], f[4])
+        skip = set(range(a, a + c))
+    bad = [a for a in changed if not (16 <= a < end and a not in skip)]
+    if bad:
+        a = bad[0]
+        ck.fail("t2-vendor-format-outside-data-area", "%s: byte %d (%s) changed %02x -> %02x; data area is 16..%d"
+                % (what, a, "lock byte" if a in skip else "behind the data area" if a >= end else "identifier/CC",
+                   base[a], final[a], end - 1), replay)
+    for a, d in cmds:
+        if not any(16 <= x < end and x not in skip for x in range(a, a + len(d))):
+            ck.fail("t2-vendor-format-command-outside-data-area", "%s: WRITE to bytes %d..%d" % (what, a, a + 3), replay)
+            break
+    if out == "true" and (nd is None or bytes(nd.octets) != b""):
+        ck.fail("t2-format-not-empty", "%s: fresh reader sees %s" % (what, after[:80]), replay)
 
-    # ------------------------------------------------------------------ Topaz / Topaz-512 format
-    t1reqs = []
-    for i in range(600 if ck.thorough else 60):
+
+# ====================================================================== Topaz
+def topaz(ck, model, model3):
+    from sims.t12_run import read_line, show_cmds
+    from sims.t12_tags import T1Sim, activate, clone, put_ndef
+    rng = ck.rng
+    t1 = Tie(ck, model3, "t1-format-model-vs-nfcpy", "T1Format/CtlC03 model vs Topaz/Topaz512.format(version, wipe) (commands, resulting memory)")
+    for i in range(900 if ck.thorough else 90):
         dyn = i % 2 == 1
         size = 512 if dyn else 120
         mem = bytearray(rng.randrange(256) for _ in range(size))
@@ -197,33 +584,273 @@ def run(ck):
             mem[8:14] = bytes.fromhex("E1100E000300")
             off, skip, hr = 12, set(range(104, 120)), b"\x11\x48"
         lay = {"kind": "t1d" if dyn else "t1s", "mem": mem, "off": off, "skip": skip, "end": size, "hr": hr}
-        from sims.t12_tags import put_ndef
         put_ndef(mem, off, skip, bytes(rng.randrange(256) for _ in range(rng.choice([0, 7, 60]))), size)
         wipe = rng.choice([None, 0, rng.randrange(256), 256 + rng.randrange(256)])
+        # version: None, a minor version of major 1 (allowed: the version byte of the CC is rewritten), or another
+        # major version (format must refuse WITHOUT writing anything)
+        version = rng.choice([None, None, None, 0x10, 0x10, 0x11, 0x12, 0x1F, 0x20, 0x0F, 0x00, 0xFF]) if i >= 20 else None
+        if version is not None and version >> 4 == 1:
+            mem[9] = rng.choice([0x10, version, version])
         base = bytes(mem)
-        sim = T1Sim(hr, base)
-        tag = activate(sim)
-        sim.arm(None)
+        replay = {"op": "format", "kind": lay["kind"], "memory": base.hex(), "wipe": wipe, "version": version, "header_rom": hr.hex()}
         try:
-            res = tag.format(wipe=wipe)
+            sim = T1Sim(hr, base)
+            tag = activate(sim)
+            sim.arm(None)
+            try:
+                res = tag.format(version=version, wipe=wipe)
+            except Exception as e:  # noqa
+                res = "exc " + exc_name(e)
+            writes = list(sim.writes)
+            final = bytes(sim.mem)
+            after, _, nd = read_line(lay["kind"], clone(sim))
         except Exception as e:  # noqa
-            res = "exc " + exc_name(e)
-        replay = {"op": "format", "kind": lay["kind"], "memory": base.hex(), "wipe": wipe, "header_rom": hr.hex()}
-        ck.case(("format", lay["kind"], base, wipe), len(sim.writes) > 0, "format:%s" % lay["kind"])
-        if res is not True:
-            ck.fail("t1-format-fails", "%s format(wipe=%r) returned %s" % (tag, wipe, res), replay)
+            ck.fail("t1-format-unexpected-exception", "%s format raised %s: %s" % (lay["kind"], exc_name(e), e), replay)
             continue
-        judge(ck, lay, lay["kind"], base, bytes(sim.mem), sim.writes, "format(wipe=%r)" % (wipe,), replay, "t1-format")
-        after, _, nd = read_line(lay["kind"], clone(sim))
-        t1reqs.append(("ft1 %s %s %d" % (lay["kind"], hx(base), -1 if wipe is None else wipe),
-                       "true | %s | %s" % (show_cmds(sim.writes), after), replay))
+        ck.case(("format", lay["kind"], base, wipe, version), len(writes) > 0,
+                "format:%s:%s" % (lay["kind"], "version=None" if version is None else "version major %d" % (version >> 4)))
+        what = "format(version=%r, wipe=%r)" % (version, wipe)
+        out = "true" if res is True else "false" if res is False else str(res)
+        t1.add("ft1v %s %s %d %d" % (lay["kind"], hx(base), -1 if wipe is None else wipe, -1 if version is None else version),
+               "%s | %s | %s" % (out, show_cmds(writes), after), replay)
+        if version is not None and version >> 4 != 1:
+            if res is not False:
+                ck.fail("t1-format-version-not-refused", "%s %s returned %s" % (tag, what, res), replay)
+            if writes or final != base:
+                ck.fail("t1-format-refused-but-wrote", "%s %s refused but sent %d write commands" % (tag, what, len(writes)), replay)
+            continue
+        if res is not True:
+            ck.fail("t1-format-fails", "%s %s returned %s" % (tag, what, res), replay)
+            continue
+        # with a version argument the CC version byte (9) may change, nothing else outside the area
+        base_j = bytearray(base)
+        if version is not None:
+            if final[9] != version:
+                ck.fail("t1-format-version-not-stored", "%s %s: CC version byte is %02x" % (tag, what, final[9]), replay)
+            base_j[9] = final[9]
+        cmds_j = [(a, d) for a, d in writes if not (version is not None and a <= 9 < a + len(d))]
+        judge(ck, lay, lay["kind"], bytes(base_j), final, cmds_j, what, replay, "t1-format")
         if nd is None or bytes(nd.octets) != b"":
             ck.fail("t1-format-not-empty", "%s format: fresh reader sees %s" % (lay["kind"], after[:80]), replay)
-    replies = model.ask_many([q[0] for q in t1reqs])
+    t1.close()
+
+
+# ====================================================================== range functions
+def ctl_functions(ck, model3):
+    """get_lock_byte_range / get_rsvd_byte_range of tt1.py and tt2.py on the whole field space: against the
+    specification (oracle) and against the model's ctlRange (tie).  One driver request covers the 256 size field
+    values of one (type, d0, d2)."""
+    from sims import c03_layouts as G
+    import nfc.tag.tt1
+    import nfc.tag.tt2
+    rng = ck.rng
+    mods = [("t2", nfc.tag.tt2, 0x100000), ("t1", nfc.tag.tt1, 0x800)]
+    if ck.thorough:
+        d0s = list(range(256))
+        d2s = list(range(16)) + [0xF0 | e for e in range(16)]
+    else:
+        d0s = sorted(set([0, 1, 0x0F, 0x10, 0x11, 0x1F, 0x80, 0x8F, 0xA0, 0xF0, 0xF2, 0xFF] + [rng.randrange(256) for _ in range(12)]))
+        d2s = list(range(16)) + [0x30 | rng.randrange(16), 0xF0 | rng.randrange(16)]
+    reqs, lines, metas = [], [], []
+    bad_spec = 0
+    for name, mod, limit in mods:
+        for t in (1, 2):
+            fn = mod.get_lock_byte_range if t == 1 else mod.get_rsvd_byte_range
+            for d0 in d0s:
+                for d2 in d2s:
+                    out = []
+                    for d1 in range(256):
+                        try:
+                            s = fn(bytearray([d0, d1, d2]))
+                            a, b, _ = s.indices(limit)
+                            got = (a, max(a, b))
+                        except Exception as e:  # noqa
+                            got = "exc " + exc_name(e)
+                        f, c = G.spec_range(t, d0, d1, d2)
+                        want = (min(f, limit), min(f + c, limit))
+                        if got != want:
+                            bad_spec += 1
+                            ck.fail("t12-control-tlv-range-wrong",
+                                    "%s.%s(%02x %02x %02x) gives bytes %s, the specification says %d..%d (size field %s)"
+                                    % (mod.__name__, fn.__name__, d0, d1, d2, got, want[0], want[1] - 1,
+                                       "00h = 256" if d1 == 0 else "%d" % d1),
+                                    {"op": "range", "module": mod.__name__, "function": fn.__name__, "value": "%02x%02x%02x" % (d0, d1, d2)})
+                        out.append("%d-%d" % got if isinstance(got, tuple) else got)
+                        ck.evals += 1
+                    reqs.append("ctl %s %d %d %d" % (name, t, d0, d2))
+                    lines.append(",".join(out))
+                    metas.append({"op": "range", "module": mod.__name__, "type": t, "d0": d0, "d2": d2})
+    ck.dist["control TLV range function evaluations (%s)" % ("all d0 x d1 x exponent" if ck.thorough else "all d1 x exponent, sampled d0")] = len(reqs) * 256
+    ck.nontrivial.add(b"ctl-functions")
+    replies = model3.ask_many(reqs)
     dis = 0
-    for (req, line, replay), rep in zip(t1reqs, replies):
+    for req, line, rep, meta in zip(reqs, lines, replies, metas):
         if rep != line:
             dis += 1
-            ck.fail("tie:t1-format-model-vs-nfcpy", "model %r, implementation %r" % (rep[:300], line[:300]),
-                    dict(replay, request=req, model=rep, impl=line))
-    ck.tie("T1Format model vs Topaz/Topaz512.format (commands, resulting memory)", cases=len(t1reqs), disagreements=dis)
+            a, b = rep.split(","), line.split(",")
+            k = next((i for i in range(min(len(a), len(b))) if a[i] != b[i]), 0)
+            ck.fail("tie:ctl-range-model-vs-nfcpy", "size field %02x: model %s, implementation %s" % (k, a[k:k + 1], b[k:k + 1]),
+                    dict(meta, request=req, d1=k))
+    ck.tie("ctlRange model vs get_lock_byte_range/get_rsvd_byte_range of tt1.py and tt2.py (x 256 size field values each)",
+           cases=len(reqs), disagreements=dis, exhaustive=False)
+    if ck.thorough:
+        ck.notes.append("control TLV range functions: every d0 x every size field x every exponent (d2 high nibble 0 and F) "
+                        "compared with the model and the specification")
+
+
+# ====================================================================== protect
+def protect(ck, model3):
+    """protect() of the generic and vendor classes: only the access byte of the capability container, static and
+    dynamic lock bytes and the product's configuration / key pages may change; never the NDEF message area"""
+    from sims import c03_layouts as G
+    from sims.c03_vendor import PRODUCTS, NxpSim, NXP_SDD, nxp_image
+    from sims.t12_run import read_line, show_cmds
+    from sims.t12_tags import activate, T2Sim, T1Sim, make_sim, put_ndef
+    rng = ck.rng
+    pt = Tie(ck, model3, "protect-model-vs-nfcpy", "CtlC03 model vs protect() without password: Type2Tag, tt2_nxp lock-bit classes, Type1Tag/Topaz (commands, resulting memory)")
+
+    def run_protect(sim, klass, base, args, allowed, replay, lay=None, req=None, judged=True):
+        try:
+            tag = activate(sim)
+            if klass is not None and type(tag).__name__ != klass:
+                ck.fail("t2-vendor-class-not-selected", "activation gave %s, expected %s" % (type(tag).__name__, klass), replay)
+                return
+            sim.arm(None)
+            try:
+                res = tag.protect(*args)
+                out = "true" if res is True else "false" if res is False else "none"
+            except Exception as e:  # noqa
+                out = "exc " + exc_name(e)
+            final = bytes(sim.mem)
+            cmds = list(sim.writes)
+        except Exception as e:  # noqa
+            ck.fail("protect-unexpected-exception", "%s protect%r raised %s: %s" % (klass, args, exc_name(e), e), replay)
+            return
+        ck.case(("protect", klass, base, args), len(cmds) > 0, "protect:%s:%s" % (klass or "generic", "password" if args[0] is not None else "lockbits"))
+        if req is not None:
+            pt.add(req, "%s | %s | %s" % (out, show_cmds(cmds), hx(final)), replay)
+        if not judged:
+            return
+        if out.startswith("exc") and out[4:] in INTERNAL:
+            # a TagCommandError is a documented outcome (e.g. the declared lock bytes lie beyond the physical memory)
+            key = "nxp-ev1-protect-attribute-error" if (out == "exc AttributeError" and klass in ("MF0UL11", "MF0UL21")) else "protect-unexpected-exception"
+            ck.fail(key, "%s.protect%r ended with %s after %d write commands" % (klass, args, out, len(cmds)), replay)
+        bad = [a for a in range(len(base)) if base[a] != final[a] and a not in allowed]
+        if bad:
+            a = bad[0]
+            inmsg = lay is not None and in_area(lay, a)
+            ck.fail("protect-changes-ndef-area" if inmsg else "protect-outside-lock-config",
+                    "%s.protect%r: byte %d (%s) changed %02x -> %02x" % (
+                        klass, args, a, "NDEF message area" if inmsg else "not a lock / access / configuration byte", base[a], final[a]), replay)
+        for a, d in cmds:
+            if not any(x in allowed for x in range(a, a + len(d))):
+                ck.fail("protect-command-outside-lock-config", "%s.protect%r: write command for bytes %d..%d" % (klass, args, a, a + len(d) - 1), replay)
+                break
+
+    # generic Type 2 Tag: lock control TLVs of the whole field space, default dynamic lock bytes
+    for i in range(2500 if ck.thorough else 250):
+        # physical memory a multiple of 16 bytes: a READ behind the end is refused instead of rolling over to page 0
+        lay = G.gen_field_layout(rng, "t2", wheres=["inside", "tail", "atend", "beyond", "beyond", "straddle", "near", "overlap", "raw"], aligned=True)
+        lay = G.with_old(rng, lay, [0, 5, 40, lambda f: f - 4])
+        if lay is None:
+            continue
+        lay["descr"] = G.describe(lay)
+        base = bytes(lay["mem"])
+        end = lay["end"]
+        allowed = {10, 11, 15}
+        locks = [(f, c) for t, d0, d1, d2, f, c, w in lay["ctl"] if t == 1]
+        if not locks and base[14] > 6:
+            nbits = (base[14] * 8 - 48 + 7) // 8
+            locks = [(end, (nbits + 7) // 8)]
+        for f, c in locks:
+            allowed |= set(range(f, f + c))
+        replay = {"op": "protect", "kind": "t2", "memory": base.hex(), "layout": lay["descr"], "request": "pt2 %s" % hx(base)}
+        run_protect(make_sim(lay, base), "Type2Tag", base, (None, False, 0), allowed, replay, lay, replay["request"])
+    # Lock Control TLV with a length other than 3 (malformed, outside the quantifier): the reader ignores it, _protect uses
+    # the value field as it is (IndexError for a short one).  Compared with the model only; no confinement claim.
+    for i in range(60 if ck.thorough else 12):
+        size = rng.choice([6, 12, 18])
+        mem = bytearray(rng.randrange(256) for _ in range(16 + size * 8 + 16))
+        mem[12:16] = bytes([0xE1, 0x10, size, 0])
+        ln = rng.choice([0, 1, 2, 4, 5])
+        val = bytes([rng.choice([0x30, 0x50, 0xA0]), rng.choice([0, 8, 16, 33]), rng.choice([2, 3, 4])] + [rng.randrange(256)] * 2)[:ln]
+        o = 16
+        mem[o:o + 2 + ln] = bytes([1, ln]) + val
+        o += 2 + ln
+        mem[o:o + 4] = bytes([3, 1, 0x42, 0xFE])
+        base = bytes(mem)
+        lay = dict(kind="t2", mem=mem, off=o, skip=set(), end=16 + size * 8)
+        replay = {"op": "protect", "kind": "t2", "memory": base.hex(), "layout": "lock control TLV with length %d (malformed)" % ln,
+                  "request": "pt2 %s" % hx(base)}
+        ck.count("protect: malformed lock control TLV length (tie only)")
+        run_protect(make_sim(lay, base), "Type2Tag", base, (None, False, 0), set(), replay, lay, replay["request"], judged=False)
+    # vendor classes, lock bits and password
+    for product in sorted(PRODUCTS):
+        p = PRODUCTS[product]
+        for i in range(24 if ck.thorough else 4):
+            lay = vendor_layout(rng, G, product, "factory")
+            lay = G.with_old(rng, lay, [0, 5, 40, lambda f: f - 4])
+            lay["descr"] = product
+            base = bytes(lay["mem"])
+            pw = i % 2 == 1
+            if pw:
+                password = rng.choice([b"", bytes(rng.randrange(256) for _ in range(16))])
+                args = (password, rng.random() < 0.5, rng.choice([0, 3, 4, 16, 300]))
+            else:
+                args = (None, False, 0)
+            allowed = {15}
+            if not pw:
+                allowed |= {10, 11}
+                if p["lock"]:
+                    allowed |= set(range(p["lock"][0], p["lock"][0] + p["lock"][1]))
+                if p["cls"] in ("Type2Tag", "MifareUltralight", "NT3H1101") and not p["lock"]:
+                    pass
+                if p["cls"] in ("NT3H1101", "MifareUltralight"):
+                    # generic _protect: default dynamic lock position right behind the data area
+                    if base[14] > 6:
+                        nbits = (base[14] * 8 - 48 + 7) // 8
+                        allowed |= set(range(lay["end"], lay["end"] + (nbits + 7) // 8))
+            if p["cfg"]:
+                allowed |= set(range(p["cfg"][0], p["cfg"][1]))
+            replay = {"op": "protect", "class": p["cls"], "product": product, "memory": base.hex(),
+                      "args": [None if args[0] is None else args[0].hex(), args[1], args[2]]}
+            req = None
+            if not pw and p["cls"] in ("MifareUltralightC", "NTAG203", "NTAG210", "NTAG212", "NTAG213", "NTAG215", "NTAG216"):
+                cfgpage = {"NTAG210": 16, "NTAG212": 37, "NTAG213": 41, "NTAG215": 131, "NTAG216": 227}.get(p["cls"], 0)
+                req = "pnxp %s %d %s" % ("ulc" if p["cls"] == "MifareUltralightC" else "n203" if p["cls"] == "NTAG203" else "n21x", cfgpage, hx(base))
+                replay["request"] = req
+            if p["cls"] in ("MifareUltralight", "NT3H1101") and not pw:
+                req = replay["request"] = "pt2 %s" % hx(base)
+            run_protect(NxpSim(product, base), p["cls"], base, args, allowed, replay, lay, req)
+    # Type 1: generic, Topaz, Topaz-512
+    for i in range(300 if ck.thorough else 45):
+        which = i % 3
+        if which == 0:
+            lay = G.gen_field_layout(rng, "t1d")
+            lay = G.with_old(rng, lay, [0, 5, 40, lambda f: f - 4])
+            if lay is None:
+                continue
+            lay["hr"] = b"\x12\x4D"          # dynamic memory, not a Topaz-512: plain Type1Tag
+            klass, allowed = "Type1Tag", {11}
+        else:
+            dyn = which == 2
+            size = 512 if dyn else 120
+            mem = bytearray(rng.randrange(256) for _ in range(size))
+            mem[0:8] = b"\x01\x02\x03\x04\x05\x06\x07\x00"
+            if dyn:
+                mem[8:24] = bytes.fromhex("E1103F000103F230330203F002030300")
+                off, skip, hr = 22, set(range(104, 128)), b"\x12\x4C"
+            else:
+                mem[8:14] = bytes.fromhex("E1100E000300")
+                off, skip, hr = 12, set(range(104, 120)), b"\x11\x48"
+            put_ndef(mem, off, skip, bytes(rng.randrange(256) for _ in range(rng.choice([0, 7, 60]))), size)
+            lay = {"kind": "t1d" if dyn else "t1s", "mem": mem, "off": off, "skip": skip, "end": size, "hr": hr}
+            klass = "Topaz512" if dyn else "Topaz"
+            # static lock bytes 112..113; Topaz-512: the first two bytes of block 0Fh as well (pinned by the test-suite)
+            allowed = {11, 112, 113} | ({120, 121} if dyn else set())
+        base = bytes(lay["mem"])
+        args = (None, False, 0) if i % 5 else (b"secret", False, 0)
+        req = "pt1 %s %s" % ({"Type1Tag": "t1", "Topaz": "topaz", "Topaz512": "topaz512"}[klass], hx(base)) if args[0] is None else None
+        replay = {"op": "protect", "class": klass, "memory": base.hex(), "header_rom": lay["hr"].hex(), "request": req}
+        run_protect(T1Sim(lay["hr"], base), klass, base, args, allowed, replay, lay, req)
+    pt.close()
